@@ -47,7 +47,7 @@ def regex(ctx):
         s = ctx.D.values["s"]
         w = m(s)
         want = re.fullmatch(pat, s) is not None
-        ctx.check(label, (w != 0) == want, detail=f"string {s!r}: automaton weight {w}, re.fullmatch {want}", sig=f"language:{tag}")
+        ctx.check(label, (w != 0) == want, detail=f"string {s!r}: automaton weight {w}, re.fullmatch {want}", sig=f"language:{tag}:{s!r}")
         return
     # ---- ground facts (constants; nothing for the solver to quantify)
     arcs = [(i, a, j, w) for i, a, j, w in m.arcs() if w != 0]
@@ -79,7 +79,7 @@ def regex(ctx):
     formula = z3.And(z3.Length(s) <= L, over, acc != z3.InRe(s, ref))
     if P.get("canary"):
         formula = z3.And(z3.Length(s) <= L, over, acc != z3.InRe(s, z3.Concat(ref, SE.charset_re(cs))))
-    ctx.unsat(label, formula, decode=lambda mdl: {"s": SE.z3_str(mdl, s)}, sig=f"language:{tag}")
+    ctx.unsat(label, formula, decode=lambda mdl: {"s": SE.z3_str(mdl, s)}, sig=f"language:{tag}", vars=[s])
 
 
 @case("C18", "translator_selftest", domain="Raw")
